@@ -111,6 +111,8 @@ finding(["C16"], "L3", "tensor.Copy@copyDense(%dt, %ts) ⊨ %ts.DataOrder().HasS
 finding(["C16"], "L4", "tensor.ToMat64@mat.NewDense( ?$t.DataOrder().IsColMajor()", "ToMat64 hands column-major storage to the row-major mat.Dense", "without a test of $t.DataOrder().IsColMajor()", 18)
 
 FIXED = [
+ {"property":"C20","commit":"eb67722","rule":"B2","key":"tensor.(StdEng).transposeMask","what":"fixed: property=C20 eb67722 under -tags inplacetranspose transposeMask handled rank 2 only and left every other tensor's mask in place while the data moved: a masked (2,3,4) tensor after T(1,2,0); Transpose() had 10 mask bits on the wrong elements (the copying build is right) (DESIGN finding 29)"},
+ {"property":"C15","commit":"eb67722","rule":"B2","key":"tensor.(StdEng).transposeMask","what":"fixed: property=C15 eb67722 same defect seen from C15: mask and data disagree after a materialised transpose of a masked tensor of rank >= 3 in the in-place build (DESIGN finding 29)"},
  {"property":"C08","commit":"e4b6ca1","rule":"L3","key":"tensor.(StdEng).OptimizedReduce@$r.E.ReduceDefault( ⊨ !%at.DataOrder().IsColMajor()","what":"fixed: property=C08 e4b6ca1 the middle-axis arm of Reduce/OptimizedReduce ran the row-major kernel on column-major strides: Sum(1) of a (2,3,4) AsFortran tensor panicked with index out of range where the first- and last-axis arms refuse with NYI: colmajor (DESIGN finding 58)"},
  {"property":"C16","commit":"1d0fb0b","rule":"T8","key":"tensor.(StdEng).denseTranspose{1,2,4,8,Arbitrary,String}, tensor.(StdEng).transposeMask","what":"fixed: property=C16 1d0fb0b the copying Transpose gathered elements last-axis-first and wrote them sequentially under column-major strides: every materialised transpose of a column-major tensor read back wrong elements ((2,3) AsFortran .T().Transpose(): 4 of 6; (2,3,4) T(1,2,0): 22 of 24) (DESIGN finding 56)"},
  {"property":"C03","commit":"1d0fb0b","rule":"T8","key":"tensor.(StdEng).denseTranspose*","what":"fixed: property=C03 1d0fb0b same defect seen from C03: materialising a lazy transpose changed the logical contents of a column-major tensor (DESIGN finding 56)"},
